@@ -68,9 +68,9 @@ pub fn check_stream(case: &StreamCase) -> CaseResult {
 }
 
 pub fn run(ctx: &Ctx, rep: &mut Report) {
-    let cases = ctx.share(ctx.tier.pick(15_000, 300_000));
+    let cases = ctx.share(ctx.tier.pick(45_000, 300_000));
     engine::drive(ctx, rep, "dense-drains", dense_case(false), cases, check_case);
-    let cases = ctx.share(ctx.tier.pick(1_500, 30_000));
+    let cases = ctx.share(ctx.tier.pick(4_500, 30_000));
     engine::drive(ctx, rep, "dense-drains-large", dense_case(true), cases, check_case);
     // Long streams: the lag bound must not depend on the stream length.
     let (lo, hi, n) = ctx.tier.pick((2 * 1024, 24 * 1024, 24), (16 * 1024, 320 * 1024, 160));
